@@ -135,6 +135,10 @@ class NumEval:
                     raise Unrel("0^nonpos")
                 if a < 0 and not self.is_int(b):
                     raise Unrel("neg^frac")
+                # astronomically large / small results (e.g. c ^ exp(sqrt(csc(pi)))) take mpmath minutes inside one
+                # uninterruptible call and are meaningless for a comparison anyway
+                if mp.isinf(a) or mp.isinf(b) or (a != 0 and abs(b) * abs(mp.log(abs(a))) > 5000):
+                    raise Unrel("magnitude")
                 return self.real(mp.power(a, b))
             raise Unrel("op:" + op)
         if ty == E.FUN:
@@ -321,6 +325,8 @@ class NumEval:
         if name == "csc":
             return self.real(mp.csc(a))
         if name == "exp":
+            if abs(a) > 5000:
+                raise Unrel("magnitude")
             return self.real(mp.exp(a))
         if name == "log":
             if a <= 0:
@@ -1895,10 +1901,13 @@ def rich_roundtrip(ctx, I, n):
 # =====================================================================================================
 # stream: normalize  (value preserving at random admissible points; idempotent)
 # =====================================================================================================
+NORMALIZE_LIMIT = [20]
+
+
 def impl_normalize(I, e, conds):
     try:
         with quiet():
-            with time_limit(20):
+            with time_limit(NORMALIZE_LIMIT[0]):
                 return "ok", I.poly.normalize(e, conds)
     except Timeout:
         return "timeout", None
@@ -1936,8 +1945,18 @@ def normalize_stream(ctx, I, n):
         if rng.random() < 0.2:
             conds.append(P("y > 0"))
         cases.append((e, conds))
-    for e, conds in cases:
-        normalize_check(ctx, I, e, conds, rng)
+    # a few generated expressions make normalize (or the evaluation of its result) very slow: per-call limit and a
+    # budget for the whole stream, so that one seed cannot take ten minutes
+    NORMALIZE_LIMIT[0] = ctx.scale(4, 20)
+    deadline = time.time() + ctx.scale(40, 420)
+    try:
+        for e, conds in cases:
+            if time.time() > deadline:
+                ctx.count("normalize:not-reached-in-time-budget")
+                continue
+            normalize_check(ctx, I, e, conds, rng)
+    finally:
+        NORMALIZE_LIMIT[0] = 20
     ctx.sample({"normalize_input": str(cases[len(corpus)][0])} if len(cases) > len(corpus) else {})
 
 
